@@ -236,3 +236,14 @@ Qed.
 Lemma ou_next_affine theta dt sqdt m s x n d :
   ou_step1 theta dt sqdt m s x (n + d) == ou_step1 theta dt sqdt m s x n + s * sqdt * d.
 Proof. unfold ou_step1. ring. Qed.
+
+(* ---------- model mutation score: NormalActionNoise is mu + sigma * N entry by entry ---------- *)
+Lemma normal_call_spec : forall mu sigma n,
+  Forall2 Qeq (normal_call mu sigma n) (map (fun p => fst (fst p) + snd (fst p) * snd p) (combine (combine mu sigma) n)).
+Proof.
+  induction mu as [|m mu IH]; intros [|s sigma] [|x n]; cbn [normal_call combine map]; try constructor.
+  - cbn [fst snd]. apply Qred_correct.
+  - apply IH.
+Qed.
+Example normal_call_example : normal_call [1; -(2)] [1 # 2; 3] [4; 1] = [3; 1].
+Proof. vm_compute. reflexivity. Qed.
